@@ -28,6 +28,28 @@ def pruneLevel : HNet F → HNet F
   | .leaf c => .leaf c
   | .node cs links exposed => subLevel cs links exposed (liveSet cs)
 
+/-! ### the criterion of `Solver.prune()` itself (theorems in Core/HierPruneRec.lean) -/
+
+mutual
+/-- the return value of `Solver.prune()` / `Model.is_empty()`: nothing with a pin is left underneath -/
+def emptyRec : HNet F → Bool
+  | .leaf c => c.pins.isEmpty
+  | .node cs _ _ => emptyAll cs
+/-- `len(not_empty) == 0` -/
+def emptyAll : List (HNet F) → Bool
+  | [] => true
+  | h :: t => emptyRec h && emptyAll t
+end
+
+/-- the positions of the children `prune()` keeps on a level -/
+def keepSet (cs : List (HNet F)) : List Nat :=
+  (List.range cs.length).filter fun i => !(cs.getD i (.node [] [] [])).emptyRec
+
+/-- the level with the children `prune()` removes gone -/
+def keepLevel : HNet F → HNet F
+  | .leaf c => .leaf c
+  | .node cs links exposed => subLevel cs links exposed (keepSet cs)
+
 /-! Sanity check: a level of four children, the second one a sub-solver that exposes nothing, the last one a component
 without pins (so `d.pins = []` is assumed).  Both are dropped, the third child moves to position 1. -/
 
